@@ -345,7 +345,7 @@ def run_audit(keys):
         out['paths'] += n
         out['unknown'] += unk
         for (k, l, ln, h) in closed:
-            if audit.allowed(allow, k, l):
+            if audit.allowed(allow, k, l, h):
                 out['allowed'] += 1
             else:
                 out['unexpected'].append((k, l, ln, h))
